@@ -29,7 +29,8 @@ FUN_AGG = ('len', 'sum', 'prod', 'max', 'min', 'gcd')
 FUN_MSG = ('roll', 'pitch', 'yaw')
 ALL_FUNS = FUN1_NUM + FUN_CONV + FUN_AGG + FUN_MSG + ('log', 'atan2')
 TIME_TEXTS = ('1', '5', '10', '100', '0.5', '0.1', '250', '3.5', '1000', '0.001', '72.33', '0.07233',
-              '1e9', '1e20', '60', '0.25', '2.5', '33', '7', '1e-3', '12.5', '999', '1e-9', '0.3', '.75')
+              '1e9', '1e20', '60', '0.25', '2.5', '33', '7', '1e-3', '12.5', '999', '1e-9', '0.3', '.75',
+              '0', '0.0', '0e0', '0.000', '1.', '1e-320', '4.9e-324')
 
 
 def pick(rng, seq):
@@ -439,9 +440,16 @@ class Typed:
             if e is not None:
                 return e
         n = r.choice((1, 2, 2, 3, 3, 4))
+        if self.bias == 'simplify' and r.random() < 0.35:
+            n = r.choice((4, 5, 6))
         elems = [self.prim(elem, max(0, d - 1)) for _ in range(n)]
         if self.bias == 'simplify' and n >= 2 and r.random() < 0.3:
             elems[-1] = elems[0]
+        if self.bias == 'simplify' and n >= 4 and elem == NUM:
+            # aggregates over sets are folded when they hold several literals next to references
+            for i in r.sample(range(n), 2):
+                elems[i] = self.num_lit()
+            r.shuffle(elems)
         return ('set', tuple(elems))
 
     def fresh_var(self):
